@@ -132,6 +132,13 @@ func (self *Core) runInstruction(instruction compiler.Instruction) *value.VmInte
 		return nil
 	case compiler.Opcode_Return:
 		self.popCallStack()
+		// Exception handlers installed by the function which just returned (`return` inside `try`) are no longer valid.
+		for len(self.exceptionCatchStates) > 0 &&
+			len(self.exceptionCatchStates) == len(self.ExceptionCatchLabels) &&
+			self.exceptionCatchStates[len(self.exceptionCatchStates)-1].callStackDepth > len(self.CallStack) {
+			self.exceptionCatchStates = self.exceptionCatchStates[:len(self.exceptionCatchStates)-1]
+			self.ExceptionCatchLabels = self.ExceptionCatchLabels[:len(self.ExceptionCatchLabels)-1]
+		}
 		// Need to return, otherwise, the callstack would have been popped, instantly skipping the next instruction
 		return nil
 	case compiler.Opcode_Load_Singleton:
